@@ -1185,7 +1185,7 @@ const COLORS: [RGBA; 16] = [
     RGBA::new(255, 255, 255, 255),
 ];
 
-fn sgr_color<'a>(mut cmds: impl Iterator<Item = &'a [u8]>) -> Option<RGBA> {
+fn sgr_color<'a>(mut cmds: impl Iterator<Item = &'a [u8]>, colon_form: bool) -> Option<RGBA> {
     match number_decode(cmds.next()?)? {
         5 => {
             // color from 256 color palette
@@ -1210,8 +1210,16 @@ fn sgr_color<'a>(mut cmds: impl Iterator<Item = &'a [u8]>) -> Option<RGBA> {
         2 => {
             // true color
             //
-            // It can contain either three or four components
-            // in the case of four first component is ignored
+            // Semicolon separated form has exactly three components, otherwise
+            // parameters following the color would be consumed
+            if !colon_form {
+                let r = u8::try_from(cmds.next().and_then(number_decode)?).ok()?;
+                let g = u8::try_from(cmds.next().and_then(number_decode)?).ok()?;
+                let b = u8::try_from(cmds.next().and_then(number_decode)?).ok()?;
+                return Some(RGBA::new(r, g, b, 255));
+            }
+            // Colon separated form can contain either three or four components
+            // in the case of four first component (color space) is ignored
             match [
                 cmds.next().and_then(number_decode),
                 cmds.next().and_then(number_decode),
@@ -1219,7 +1227,10 @@ fn sgr_color<'a>(mut cmds: impl Iterator<Item = &'a [u8]>) -> Option<RGBA> {
                 cmds.next().and_then(number_decode),
             ] {
                 [Some(r), Some(g), Some(b), None] | [_, Some(r), Some(g), Some(b)] => {
-                    Some(RGBA::new(r as u8, g as u8, b as u8, 255))
+                    let r = u8::try_from(r).ok()?;
+                    let g = u8::try_from(g).ok()?;
+                    let b = u8::try_from(b).ok()?;
+                    Some(RGBA::new(r, g, b, 255))
                 }
                 _ => None,
             }
@@ -1238,9 +1249,9 @@ fn sgr_face(data: &[u8]) -> FaceModify {
         let args_empty = args.size_hint().0 == 0;
         let mut sgr_color_thunk = || {
             if args_empty {
-                sgr_color(&mut groups)
+                sgr_color(&mut groups, false)
             } else {
-                sgr_color(&mut args)
+                sgr_color(&mut args, true)
             }
         };
         match cmd {
